@@ -26,6 +26,10 @@ def record(tw, rng, n_chains, stats):
             ratio = gen.logu(rng, 1.0, 1000.0)
             m1 = gen.logu(rng, 1.0, 1000.0 / ratio) if rng.random() < 0.5 else gen.logu(rng, ratio, 1000.0)
             m2 = m1 * ratio if m1 * ratio <= 1000.0 else m1 / ratio
+            if rng.random() < 0.2:
+                # "every pair of positive molar masses": the law is about their RATIO, the absolute scale (g/mol, kg/mol, ...) is free
+                sc_ = gen.logu(rng, 1e-4, 1.0)
+                m1, m2 = m1 * sc_, m2 * sc_
             mix = gen.synthetic_mixture(rng, "S", comps=(gen.synthetic_component(rng, "S1", mass=m1),
                                                          gen.synthetic_component(rng, "S2", mass=m2)))
         M1, M2 = float(mix.first_component.molecular_weight), float(mix.second_component.molecular_weight)
@@ -64,7 +68,19 @@ def record(tw, rng, n_chains, stats):
         stats["chains"] = stats.get("chains", 0) + 1
         if not close and 1e-9 < pa < pb < 1 - 1e-9:
             stats["nontrivial"].add((round(pa, 12), round(pb, 12), M1, M2, t0))
-    # rejection table: construction outside [0,1] must raise, inside must not
+    # rejection table: construction outside [0,1] must raise, inside must not - also after other parts of the library have been used
+    # in this process (here: a small VLE fit)
+    if rng.random() < 0.5:
+        try:
+            import glob
+            import os
+            from pyvaporation.mixtures.uniquac_fitting import VLEPoints, fit_vle
+            f = sorted(glob.glob(os.path.join(os.environ.get("VERIF_REPO", "/repo"), "tests", "VLE_data", "binary", "*.csv")))[0]
+            d = VLEPoints.from_csv(f)
+            fit_vle(VLEPoints(components=d.components, data=d.data[:3]), method="COBYLA")
+            stats["vle_warmups"] = stats.get("vle_warmups", 0) + 1
+        except Exception:  # noqa: BLE001
+            pass
     outside = [-1e-300, -1e-12, -0.5, 1.0000000000000002, 1.5, 1e300, float("nan"), float("inf"), -float("inf")]
     inside = [0.0, 1.0, 5e-324, 0.9999999999999999, 0.5]
     for _ in range(max(4, n_chains // 20)):
